@@ -38,7 +38,7 @@ META = {
             "k / n / radius / voxel sizes derived from the cloud's own distance spectrum incl. exact hits of the radius and "
             "of cell boundaries on fixed-point clouds, dtype float32/float64, batch shapes where documented); points are "
             "shuffled so that outliers sit at arbitrary positions; hand-made corner clouds first (1..3 points, one voxel, "
-            "nothing retained, #retained <= k), then a FIXED-SEED CORPUS of 1291 cases independent of VERIF_SEED (per stream "
+            "nothing retained, #retained <= k), then a FIXED-SEED CORPUS of 1661 cases independent of VERIF_SEED (quick runs a fixed two-thirds of its small-case sweeps) (per stream "
             "ord x dtype x kind crossed with: magnitudes 2^-400..2^400 (f32: 2^-40..2^30), exact radius hits / 0 / inf, "
             "duplicates, k >= 17 and N2 > 40, every flag combination, memory layouts cols/rows/transposed/expanded, one "
             "tensor in two roles, mixed-regime batches, RNG extremes, 36 call histories on caller-held tensors with one "
